@@ -15,6 +15,9 @@ CANARY_MOD = "verif_canary_pkg"
 UNTRUSTED_NAMES = [
     (CANARY_MOD, "Probe"), (CANARY_MOD, "probe_fn"), (CANARY_MOD + ".sub", "Other"),
     ("os", "getcwd"), ("posixpath", "basename"), ("math", "sqrt"), ("builtins", "abs"),
+    # "ghost" names: module.attr does NOT resolve, but a parent package (or a sibling spelling) has an attribute of that
+    # name -- whoever vouches for the exact name must get an error, never the parent's object
+    (CANARY_MOD + ".sub", "Probe"), (CANARY_MOD + ".sub", "probe_fn"), (CANARY_MOD + ".nosuch", "Probe"), ("os.path", "getcwd"),
 ]
 NEAR_MISS = [("builtin", "s.list"), ("", "builtins.list"), ("builtins.", "list"), ("builtins", "list "),
              ("Builtins", "list"), ("numpy", "ndarray."), ("builtins.list", ""), ("b", "uiltins.list")]
